@@ -433,6 +433,33 @@ func checkC16(r *Result) {
 		sort.Strings(idx)
 		r.check(len(idx) == 0, "SLOTS", "(*x/bridge/types.BridgeValsetSignatures).SetSignature # slot index bounds-guarded", P.Pos(bs.Pos()), fmt.Sprintf("%d guarded index sites, unguarded: %v", gd, idx))
 	}
+	// the index that selects the previous set is read after the new checkpoint took its index: read earlier,
+	// "index - 1" names the set before the previous one and the slots are sized for the wrong set
+	if sp := need("(x/bridge/keeper.Keeper).SetBridgeValidatorParams"); sp != nil {
+		ps := AnalyzePaths(sp, []Atom{{Name: "indexed", Event: P.CallEvent(func(c *CallSite) bool {
+			return c.Callee == "(x/bridge/keeper.Keeper).CalculateValidatorSetCheckpoint"
+		}, T)}})
+		n := 0
+		for _, cs := range P.Sites(descIs("coll:x/bridge/keeper.Keeper.LatestCheckpointIdx.Get")) {
+			if TopFunc(cs.Fn) != sp {
+				continue
+			}
+			n++
+			bad := ps.Require(cs.Instr, func(v map[string]bool) bool { return v["indexed"] })
+			r.check(len(bad) == 0, "SLOTS", "(x/bridge/keeper.Keeper).SetBridgeValidatorParams # the latest checkpoint index is read after the new checkpoint was given its index", P.Pos(cs.Pos()), fmt.Sprintf("valuations: %v", statesStr(ps, cs.Instr)))
+		}
+		r.check(n == 1, "SLOTS", "(x/bridge/keeper.Keeper).SetBridgeValidatorParams # one read of the latest checkpoint index", P.Pos(sp.Pos()), fmt.Sprint(n))
+		// and CalculateValidatorSetCheckpoint is the function that advances the index
+		if cc := need("(x/bridge/keeper.Keeper).CalculateValidatorSetCheckpoint"); cc != nil {
+			w := 0
+			for _, cs := range P.Sites(descIs("coll:x/bridge/keeper.Keeper.LatestCheckpointIdx.Set")) {
+				if TopFunc(cs.Fn) == cc {
+					w++
+				}
+			}
+			r.check(w >= 1, "SLOTS", "(x/bridge/keeper.Keeper).CalculateValidatorSetCheckpoint # advances the latest checkpoint index", P.Pos(cc.Pos()), fmt.Sprintf("%d stores", w))
+		}
+	}
 	// a delivered signature is written into its checkpoint's slots on every success path (only the very
 	// first checkpoint needs none): a success that drops the signature leaves a step of the chain unsignable
 	if ss := need("(x/bridge/keeper.Keeper).SetBridgeValsetSignature"); ss != nil {
